@@ -27,6 +27,11 @@
     of loops).  Empty entries, in particular the all-zero null section every ELF section table starts with (whose page
     count `size - 1` wraps to 2^52), are never delivered by the visitor and need no fuel, so the hypothesis is
     satisfiable for real tables with small fuel (example C05_null_section_table_nonvacuous).
+    Note (audit A): [K.fuel_ok] asks fuel above the page count of EVERY non-empty section, including the sections the closure
+    skips (address below the kernel offset, e.g. non-alloc .symtab / .debug sections at address 0, or any section after an
+    error) - more than the function needs, but always satisfiable (example C05_setup_kernel_is_translation_real_input).
+    The seam oracles are FIXED to the model's pdt_init / pdt_map / pdt_activate / translate: the theorem does not range
+    over arbitrary seam behaviours, only over allocator oracles carried in the state.
     Statements only; proofs are in Vmm/KernelTrans.v. *)
 From Coq Require Import NArith String List Bool.
 From FF Require Import Lib.Word Lib.GoOps Gen.Consts_mm_vmm Gen.Trans_vmm_kernel Vmm.Pt.
